@@ -50,9 +50,9 @@ VALID = [("0", False), ("1", True), ("true", True), ("false", False), ("True", T
 INVALID = ["yes", "no", "2", "", "on", "off", 0, 1, None, 1.5, "tru", " 1", "1 ", b"1", "01", "-1", [True], "disable"]
 
 
-def set_valid(case, value):
+def set_valid(case, value, key="jaxtyping_disable"):
     try:
-        jaxtyping.config.update("jaxtyping_disable", value)
+        jaxtyping.config.update(key, value)
     except ValueError as e:
         jaxtyping.config.update("jaxtyping_disable", False)
         raise Violation("valid-rejected", case, f"config.update('jaxtyping_disable', {value!r}) raised ValueError: {str(e)[:80]}")
@@ -98,6 +98,16 @@ def check_case(ctx, case):
                 if ncalls:
                     flags.add("toggle-between-calls")
                 continue
+            if op[0] == "set-key":
+                # the switch name in another letter case: either rejected with ValueError (nothing changes) or it takes effect
+                try:
+                    jaxtyping.config.update(op[3], op[1])
+                    model_disabled = op[2]
+                except ValueError:
+                    pass
+                if bool(jaxtyping.config.jaxtyping_disable) != model_disabled:
+                    raise Violation("set-ignored", case, f"config.update({op[3]!r}, {op[1]!r}) was accepted without error but the switch is {jaxtyping.config.jaxtyping_disable}")
+                continue
             if op[0] == "invalid":
                 key, val = op[1], op[2]
                 try:
@@ -111,6 +121,34 @@ def check_case(ctx, case):
                     raise Violation("invalid-error-class", case, f"config.update({key!r}, {val!r}) raised {type(e).__name__}, not ValueError")
                 if bool(jaxtyping.config.jaxtyping_disable) != model_disabled:
                     raise Violation("invalid-changed-state", case, f"rejected update changed the switch to {jaxtyping.config.jaxtyping_disable}")
+                continue
+            if op[0] == "call-toggle":
+                # the body itself flips the switch while the call is in progress: a well-typed call must still return the
+                # body's object, and nothing may be left behind
+                made = gs.make_args(params, style_seed=op[1])
+                if made is None:
+                    continue
+                args, kwargs, recv = made
+                rec.calls.clear()
+                rec.exc = None
+                newval = not model_disabled
+                rec.hook = lambda: jaxtyping.config.update("jaxtyping_disable", newval)
+                try:
+                    st_, val = drive(kind, dec, list(args), dict(kwargs))
+                finally:
+                    rec.hook = None
+                ncalls += 1
+                if kind == "async":
+                    pass
+                model_disabled = newval if rec.calls else model_disabled
+                if not (st_ == "ok" and val is rec.result and len(rec.calls) == 1):
+                    raise Violation("toggle-during-call", case, f"well-typed call whose body sets jaxtyping_disable={newval}: {st_} {val!r}, body ran {len(rec.calls)}x; {info} ops={case['ops']}")
+                import numpy as _np
+                from jaxtyping import Shaped as _Shaped
+
+                if not (isinstance(_np.zeros(3), _Shaped[_np.ndarray, "vf19"]) and isinstance(_np.zeros(4), _Shaped[_np.ndarray, "vf19"])):
+                    raise Violation("toggle-during-call", case, f"after a call whose body flipped the switch, top-level checks are no longer stateless; {info} ops={case['ops']}")
+                flags.add("toggle-during-call")
                 continue
             # call
             _, typed, style_seed, bad_at, raising = op[:5]
@@ -189,10 +227,15 @@ def c19_case(draw):
     ops = []
     n = draw(st.integers(3, 8))
     for _ in range(n):
-        k = draw(st.sampled_from(["call-ill", "set", "call-well", "call-ill", "set", "invalid"]))
+        k = draw(st.sampled_from(["call-ill", "set", "call-well", "call-ill", "set", "invalid", "set-key", "call-toggle"]))
         if k == "set":
             v = draw(valid)
             ops.append(["set", v[0], v[1]])
+        elif k == "set-key":
+            v = draw(valid)
+            ops.append(["set-key", v[0], v[1], draw(st.sampled_from(["JAXTYPING_DISABLE", "Jaxtyping_Disable", "jaxtyping_DISABLE"]))])
+        elif k == "call-toggle":
+            ops.append(["call-toggle", draw(st.integers(0, 15))])
         elif k == "invalid":
             if draw(st.integers(0, 3)) == 0:
                 ops.append(["invalid", draw(st.sampled_from(["jaxtyping_disabled", "disable", "", "jaxtyping"])), True])
@@ -240,6 +283,22 @@ HOOK_SCRIPT = textwrap.dedent('''
 ''')
 
 
+HOOK_REENABLE_SCRIPT = textwrap.dedent('''
+    import sys
+    sys.path.insert(0, sys.argv[1])
+    import jaxtyping
+    from jaxtyping import install_import_hook
+    with install_import_hook("vfmod19b", "typeguard.typechecked"):
+        import vfmod19b                      # imported while JAXTYPING_DISABLE=1
+    r1 = vfmod19b.f("not-an-int")
+    jaxtyping.config.update("jaxtyping_disable", False)   # switching back on restores checking without re-import
+    try:
+        vfmod19b.f("not-an-int"); print("NOT-RESTORED")
+    except jaxtyping.TypeCheckError:
+        print("RESTORED")
+''')
+
+
 def run_subprocesses(ctx):
     env_base = {k: v for k, v in os.environ.items() if k not in ("JAXTYPING_DISABLE",)}
     cases = [("1", "off"), ("true", "off"), ("TRUE", "off"), ("0", "on"), ("false", "on"), ("False", "on"), (None, "on"),
@@ -270,6 +329,15 @@ def run_subprocesses(ctx):
             ctx.note(["hook-env", val], True, classes=[f"hook-env-{val}"], sample={"hooked module, JAXTYPING_DISABLE": val, "output": out})
             if out != exp:
                 raise Violation("env-hooked-module", {"env": val, "hook": True}, f"hooked module with JAXTYPING_DISABLE={val!r}: {out!r} (stderr {r.stderr[-300:]!r}), expected {exp!r}")
+        with open(os.path.join(d, "vfmod19b.py"), "w") as f:
+            f.write("def f(x: int) -> int:\n    return x\n")
+        env = dict(env_base, JAXTYPING_DISABLE="1")
+        r = subprocess.run([sys.executable, "-W", "ignore", "-c", HOOK_REENABLE_SCRIPT, d], env=env, capture_output=True, text=True, timeout=120)
+        out = r.stdout.strip()
+        ctx.note(["hook-reenable"], True, classes=["hook-reenable"], sample={"hooked module imported while disabled, then re-enabled": out})
+        if out != "RESTORED":
+            raise Violation("env-hooked-module", {"env": "1", "hook": True, "reenable": True},
+                            f"module hooked while JAXTYPING_DISABLE=1, then config.update('jaxtyping_disable', False): ill-typed call gave {out!r} (stderr {r.stderr[-300:]!r})")
     finally:
         import shutil
 
